@@ -6,13 +6,19 @@ use crate::scalar::Scalar;
 use sliding_features::View;
 
 pub mod c01;
+pub mod c08;
 pub mod c14;
+pub mod c15;
 pub mod c17;
+pub mod c18;
 
 pub fn by_id(id: &str) -> Option<Box<dyn Monitor>> {
     Some(match id {
         "C01" => Box::new(c01::C01),
+        "C08" => Box::new(c08::C08),
         "C14" => Box::new(c14::C14),
+        "C15" => Box::new(c15::C15),
+        "C18" => Box::new(c18::C18),
         "C17" => Box::new(c17::C17),
         _ => return None,
     })
